@@ -680,6 +680,55 @@ def contrast_section(ck):
             ck.fail("scale/variance-below-tiny", "effect 1e-26 with zero variance: t = %r, after 100 * contrast t = %r (%s)" % (t0, t1, name),
                     {"impl": name, "effect": 1e-26, "variance": 0.0, "k": 100.0, "t": t0, "t_scaled": t1})
 
+    # ---- F. memory layouts: Fortran-ordered, strided and transposed-view effect / variance arrays give the same
+    #         statistics as contiguous copies, and the caller's arrays are never modified
+    NL = ck.n(60, 600)
+    for it in range(NL):
+        typ = ["t", "F", "F", "tmin-conjunction"][it % 4]
+        dim = 1 if typ == "t" else (int(rng.integers(1, 4)) if typ == "F" else int(rng.integers(2, 4)))
+        n = int(rng.integers(1, 7))
+        A = rng.integers(-3, 4, (dim, dim + 1, n)).astype(float)
+        V0 = np.ascontiguousarray(np.einsum("ikn,jkn->ijn", A, A) + np.eye(dim)[:, :, None] * rng.integers(1, 4))
+        e0 = np.ascontiguousarray(rng.integers(-40, 41, (dim, n)).astype(float) / 4.0)
+        base = 0.0 if rng.random() < 0.5 else float(rng.integers(-3, 4)) / 2.0
+
+        def variants():
+            yield "fortran", np.asfortranarray(e0), np.asfortranarray(V0)
+            eb = np.zeros((dim, 2 * n)); eb[:, ::2] = e0
+            Vb = np.zeros((dim, dim, 2 * n)); Vb[:, :, ::2] = V0
+            yield "strided", eb[:, ::2], Vb[:, :, ::2]
+            yield "transposed-view", np.ascontiguousarray(e0.T).T, np.ascontiguousarray(V0.transpose(2, 0, 1)).transpose(1, 2, 0)
+            Vr = np.ascontiguousarray(V0[::-1, ::-1])
+            yield "negative-strides", np.ascontiguousarray(e0[::-1])[::-1], Vr[::-1, ::-1]
+        for name, mk, fstat, fp, fz in impls:
+            cref = mk(e0, V0, 12.0, typ)
+            ref = [np.ravel(np.array(getattr(cref, f)(base), dtype=float)) for f in (fstat, fp, fz)]
+            for vname, ev, Vv in variants():
+                ek, Vk = ev.copy(), Vv.copy()
+                ck.count(("layout", name, vname, it), nontrivial=True, bucket="layout:%s:%s" % (name, vname))
+                rep = {"impl": name, "type": typ, "dim": dim, "layout": vname, "effect": e0.tolist(), "variance": V0.tolist(), "baseline": base,
+                       "effect_strides": list(ev.strides), "variance_strides": list(Vv.strides)}
+                try:
+                    if name == "fmri":
+                        c = fg.Contrast(ev, Vv, dof=12.0, contrast_type=typ)
+                    else:
+                        c = lg.contrast(dim, {"tmin-conjunction": "tmin"}.get(typ, typ))
+                        c.effect, c.variance, c.dof = ev, Vv, 12.0
+                    got = [np.ravel(np.array(getattr(c, f)(base), dtype=float)) for f in (fstat, fp, fz)]
+                    c2 = 2.0 * c
+                    c3 = c + c
+                    got2 = np.ravel(np.array(getattr(c3, fstat)(base), dtype=float))
+                except Exception as ex:  # noqa
+                    ck.fail("layout/raises/%s/%s" % (name, vname), "%s %s contrast on %s arrays raised %r" % (name, typ, vname, ex), rep)
+                    continue
+                if not all(x.shape == y.shape and np.allclose(x, y, rtol=1e-10, atol=1e-300) for x, y in zip(got, ref)):
+                    ck.fail("layout/value-differs/%s/%s" % (name, vname),
+                            "%s %s contrast: stat/p/z on %s arrays differ from the contiguous copy: %s vs %s" % (name, typ, vname, [x.tolist() for x in got], [x.tolist() for x in ref]), rep)
+                if not (np.array_equal(ev, ek) and np.array_equal(Vv, Vk)):
+                    ck.fail("layout/input-mutated/%s/%s" % (name, vname),
+                            "%s %s contrast: the caller's %s effect/variance array was modified by stat/p_value/z_score/*/+" % (name, typ, vname),
+                            dict(rep, variance_after=np.asarray(Vv).tolist()))
+
     if build_ok:
         res = ck.coq_bools(HDRC, terms, name="contrast")
         ck.cov["traces_validated_against_impl"] += len(res)
@@ -690,6 +739,166 @@ def contrast_section(ck):
 
 
 # ------------------------------------------------------------------ LikelihoodModelResults
+def _pos_recipr(x):
+    x = np.asarray(x, dtype=float)
+    out = np.zeros(x.shape)
+    out[x > 0] = 1.0 / x[x > 0]
+    return out
+
+
+def _same(a, b, rtol=1e-10):
+    a, b = np.asarray(a, dtype=float), np.asarray(b, dtype=float)
+    return a.shape == b.shape and np.allclose(a, b, rtol=rtol, atol=1e-300)
+
+
+def results_options(ck, r, C, rng, rep, terms, meta):
+    """Rarely used arguments of LikelihoodModelResults: every subset of store=, dispersion= None / python float /
+    numpy scalar / per-voxel array, invcov=, other=, column= - each result against first principles computed from
+    r.theta, r.cov and the EFFECTIVE dispersion (the caller's when given, r.dispersion otherwise), and against
+    the default full-store call with the same dispersion."""
+    import itertools
+    theta, cov = np.asarray(r.theta, dtype=float), np.asarray(r.cov, dtype=float)
+    selfd = np.asarray(r.dispersion, dtype=float)
+    multi = theta.ndim == 2
+    nv = theta.shape[1] if multi else 1
+    p = theta.shape[0]
+    c = C[0]
+    kinds = [("none", None), ("python-float", float(rng.integers(1, 9)) / 4.0), ("numpy-scalar", np.float64(rng.integers(1, 9)) / 2.0)]
+    if multi:
+        kinds.append(("per-voxel", rng.integers(1, 9, nv).astype(float) / 4.0))
+    else:
+        kinds.append(("0-d-array", np.array(float(rng.integers(1, 9)) / 4.0)))
+    full = ("t", "effect", "sd")
+    subsets = [s_ for L in range(0, 4) for s_ in itertools.combinations(full, L)]
+    eff_ref = c @ theta
+    v = float(c @ cov @ c)
+    for kind, d in kinds:
+        de = selfd if d is None else np.asarray(d, dtype=float)
+        sd_ref = np.sqrt(v * de)
+        t_ref = eff_ref * _pos_recipr(sd_ref)
+        ref = {"t": t_ref, "effect": eff_ref, "sd": sd_ref}
+        try:
+            Tfull = r.Tcontrast(c, dispersion=d)
+        except Exception as ex:  # noqa
+            ck.fail("results/Tcontrast-options/raises/dispersion-%s" % kind, "Tcontrast(c, dispersion=%r) raised %r" % (d, ex), dict(rep, dispersion=repr(d)))
+            continue
+        for st in subsets:
+            for as_type in (tuple, list):
+                if as_type is list and len(st) != 1:
+                    continue
+                ck.count(("Topt", kind, st, as_type.__name__, rep["it"]), nontrivial=True, bucket="results-options:T:%s:%s" % (kind, "+".join(st) or "empty"))
+                rp = dict(rep, store=list(st), dispersion=None if d is None else np.asarray(d).tolist(), dispersion_kind=kind)
+                try:
+                    T = r.Tcontrast(c, store=as_type(st), dispersion=d)
+                except Exception as ex:  # noqa
+                    ck.fail("results/Tcontrast-options/raises/dispersion-%s" % kind, "Tcontrast(c, store=%r, dispersion=%s) raised %r" % (st, kind, ex), rp)
+                    continue
+                sub = "full-store" if set(st) == set(full) else ("t-without-sd" if "t" in st and "sd" not in st else "subset")
+                for f in full:
+                    got = getattr(T, f)
+                    if f not in st:
+                        if got is not None:
+                            ck.fail("results/Tcontrast-options/not-requested-field-stored", "store=%r but .%s is not None" % (st, f), rp)
+                        continue
+                    if got is None:
+                        ck.fail("results/Tcontrast-options/requested-field-missing/%s" % f, "store=%r but .%s is None" % (st, f), rp)
+                        continue
+                    if not _same(np.squeeze(got), np.squeeze(np.broadcast_to(ref[f], np.broadcast_shapes(np.shape(ref[f]), np.shape(got))))):
+                        ck.fail("results/Tcontrast-options/%s-wrong/%s/dispersion-%s" % (f, sub, kind),
+                                "Tcontrast(c, store=%r, dispersion=%s).%s = %s, expected %s (effective dispersion %s)" % (
+                                    st, kind, f, np.asarray(got).tolist(), np.asarray(ref[f]).tolist(), np.asarray(de).tolist()),
+                                dict(rp, got=np.asarray(got).tolist(), expected=np.asarray(ref[f]).tolist()))
+                    elif not np.array_equal(np.asarray(got), np.asarray(getattr(Tfull, f))):
+                        ck.fail("results/Tcontrast-options/store-dependent/%s/dispersion-%s" % (f, kind),
+                                ".%s differs between store=%r and the default store for the same dispersion" % (f, st), rp)
+                if T.df_den != r.df_resid:
+                    ck.fail("results/Tcontrast-options/df_den", "df_den %r != df_resid %r" % (T.df_den, r.df_resid), rp)
+                # model comparison, voxel 0
+                if as_type is tuple:
+                    d0 = None if d is None else float(np.ravel(de)[0])
+                    s0 = float(np.ravel(selfd)[0])
+                    de0 = s0 if d0 is None else d0
+                    vd = frac(v) * frac(de0)
+                    sdv = frac(float(np.sqrt(v * de0)))
+
+                    def first(x):
+                        return None if x is None else frac(float(np.ravel(np.asarray(x, dtype=float))[0]))
+                    tol = Fraction(1, 10 ** 9)
+                    terms.append("sqrt_tbl_close %s %s && tres_close %s (g_Tcontrast (Qops %s) %s %s %s %s %s %s %s) %s %s %s" % (
+                        cq(tol), ctbl([(vd, sdv)]), cq(tol), ctbl([(vd, sdv)]),
+                        "true" if "t" in st else "false", "true" if "effect" in st else "false", "true" if "sd" in st else "false",
+                        cq(frac(float(np.ravel(eff_ref)[0]))), cq(frac(v)), coptq(None if d0 is None else frac(d0)), cq(frac(s0)),
+                        coptq(first(T.t)), coptq(first(T.effect)), coptq(first(T.sd))))
+                    meta.append(("results/model-vs-impl/Tcontrast-options/%s/dispersion-%s" % (sub, kind),
+                                 "model g_Tcontrast and Tcontrast(store=%r, dispersion=%s) disagree" % (st, kind), rp))
+        # invalid store entries are rejected
+        try:
+            r.Tcontrast(c, store=("t", "F"), dispersion=d)
+            ck.fail("results/Tcontrast-options/invalid-store-accepted", "store=('t','F') accepted", dict(rep))
+        except ValueError:
+            pass
+        # ---- Fcontrast(dispersion=, invcov=)
+        q = C.shape[0]
+        ct = C @ theta
+        Vc = C @ cov @ C.T
+        quad = np.atleast_1d(np.einsum("i...,ij,j...->...", ct, np.linalg.inv(Vc), ct))
+        F_ref = quad * _pos_recipr(q * np.atleast_1d(de))
+        for use_invcov in (False, True):
+            ck.count(("Fopt", kind, use_invcov, rep["it"]), nontrivial=True, bucket="results-options:F:%s:%s" % (kind, "invcov" if use_invcov else "computed"))
+            rp = dict(rep, dispersion=None if d is None else np.asarray(d).tolist(), dispersion_kind=kind, invcov=use_invcov)
+            try:
+                Fr = r.Fcontrast(C, dispersion=d, invcov=np.linalg.inv(Vc) if use_invcov else None)
+            except Exception as ex:  # noqa
+                ck.fail("results/Fcontrast-options/raises/dispersion-%s" % kind, "Fcontrast(C, dispersion=%r) raised %r" % (d, ex), rp)
+                continue
+            if not np.allclose(np.atleast_1d(np.asarray(Fr.F, dtype=float)), F_ref, rtol=1e-8) or Fr.df_num != q:
+                ck.fail("results/Fcontrast-options/F-wrong/dispersion-%s/%s" % (kind, "invcov" if use_invcov else "computed"),
+                        "Fcontrast(C, dispersion=%s).F = %s, expected %s" % (kind, np.asarray(Fr.F).tolist(), F_ref.tolist()), rp)
+            covw = Vc[:, :, None] * np.atleast_1d(de)
+            if not np.allclose(np.asarray(Fr.covariance).reshape(q, q, -1), covw, rtol=1e-10) or not np.allclose(Fr.effect, ct):
+                ck.fail("results/Fcontrast-options/covariance-or-effect-wrong/dispersion-%s" % kind,
+                        "Fcontrast(C, dispersion=%s).covariance/.effect differ from C cov C' * dispersion / C theta" % kind, rp)
+            if q == 1 and use_invcov is False:
+                d0 = None if d is None else float(np.ravel(de)[0])
+                s0 = float(np.ravel(selfd)[0])
+                terms.append("qrelclose %s (g_Fcontrast1 (Qops []) %s %s %s %s) %s" % (
+                    cq(Fraction(1, 10 ** 9)), cq(frac(float(np.ravel(ct)[0]))), cq(1 / frac(float(Vc[0, 0]))),
+                    coptq(None if d0 is None else frac(d0)), cq(frac(s0)), cq(frac(float(np.ravel(np.asarray(Fr.F, dtype=float))[0])))))
+                meta.append(("results/model-vs-impl/Fcontrast-options/dispersion-%s" % kind, "model g_Fcontrast1 and Fcontrast disagree", rp))
+        # ---- vcov(matrix=, other=, column=, dispersion=)
+        rp = dict(rep, dispersion=None if d is None else np.asarray(d).tolist(), dispersion_kind=kind)
+        D = C[::-1]
+        try:
+            got_m = np.asarray(r.vcov(matrix=C, dispersion=d)).reshape(q, q, -1)
+            got_o = np.asarray(r.vcov(matrix=C, other=D, dispersion=d)).reshape(q, q, -1)
+            got_c = np.atleast_1d(np.asarray(r.vcov(column=1, dispersion=d), dtype=float))
+        except Exception as ex:  # noqa
+            ck.fail("results/vcov-options/raises/dispersion-%s" % kind, "vcov raised %r" % ex, rp)
+            continue
+        ck.count(("vcov", kind, rep["it"]), nontrivial=True, bucket="results-options:vcov:%s" % kind)
+        den = np.atleast_1d(de)
+        if not (np.allclose(got_m, Vc[:, :, None] * den, rtol=1e-10) and np.allclose(got_o, (C @ cov @ D.T)[:, :, None] * den, rtol=1e-10)
+                and np.allclose(got_c, cov[1, 1] * den, rtol=1e-10)):
+            ck.fail("results/vcov-options/wrong/dispersion-%s" % kind, "vcov(matrix=/other=/column=, dispersion=%s) differs from M cov O' * dispersion" % kind, rp)
+    # ---- t(column): scalar column, list of columns, all columns - against Tcontrast(e_j)
+    tj = [np.atleast_1d(np.asarray(r.Tcontrast(np.eye(p)[j]).t, dtype=float)) for j in range(p)]
+    for colkind, col in (("scalar", 1), ("list", [0, p - 1]), ("all", None)):
+        ck.count(("tcol", colkind, rep["it"]), nontrivial=True, bucket="results-options:t:%s:%s" % (colkind, "2D-response" if multi else "single"))
+        # structural class of the call: a vector of columns on a fit of a 2-D response is one class (raises or mis-broadcasts)
+        cls = "vector-column/2D-response-fit" if (multi and colkind != "scalar") else "%s/%s" % (colkind, "2D-response-fit" if multi else "single-response")
+        cols = [col] if colkind == "scalar" else (list(range(p)) if col is None else col)
+        want = np.array([tj[j] for j in cols])
+        try:
+            got = np.asarray(r.t(column=col), dtype=float)
+        except Exception as ex:  # noqa
+            ck.fail("results/t-column/%s" % cls, "results.t(column=%r) raised %s: %s (theta shape %s)" % (col, type(ex).__name__, ex, theta.shape),
+                    dict(rep, column=col))
+            continue
+        if got.size != want.size or not np.allclose(got.ravel(), want.ravel(), rtol=1e-10, atol=1e-300):
+            ck.fail("results/t-column/%s" % cls, "results.t(column=%r) = %s differs from Tcontrast(e_j).t = %s (theta shape %s)" % (
+                col, got.tolist(), want.tolist(), theta.shape), dict(rep, column=col, got=got.tolist(), expected=want.tolist()))
+
+
 def results_section(ck):
     from nipy.algorithms.statistics.models.regression import OLSModel
     rng = ck.rng("results")
@@ -704,8 +913,11 @@ def results_section(ck):
             continue
         nv = int(rng.integers(1, 4))
         Y = rng.integers(-20, 21, (n, nv)).astype(float) * 10.0 ** float(rng.integers(-2, 3))
+        single = it % 4 == 3                      # single-response fit: 1-D Y, scalar dispersion
+        if single:
+            Y, nv = Y[:, 0].copy(), 1
         r = OLSModel(X).fit(Y)
-        theta, cov, disp = np.asarray(r.theta), np.asarray(r.cov), np.atleast_1d(np.asarray(r.dispersion, dtype=float))
+        theta, cov, disp = np.asarray(r.theta).reshape(p, nv), np.asarray(r.cov), np.atleast_1d(np.asarray(r.dispersion, dtype=float))
         if np.any(disp <= 0):
             continue
         q = int(rng.integers(1, p + 1))
@@ -715,6 +927,7 @@ def results_section(ck):
                 break
         ck.count(("results", it), nontrivial=True, bucket="results:q%d" % q)
         rep = {"X": X.tolist(), "Y": Y.tolist(), "C": C.tolist()}
+        results_options(ck, r, C, rng, dict(rep, it=it), terms, meta)
         # t contrast on the first row
         c = C[0]
         T = r.Tcontrast(c)
